@@ -93,8 +93,13 @@ impl ReplicationFetcher {
         for (addr, record_type) in incoming_keys {
             let key = addr.to_record_key();
 
-            // Skip if locally stored or already pending fetch
-            if locally_stored_keys.contains_key(&key)
+            // Skip if the very same version is stored locally, or it is already pending fetch.
+            // A held key advertised with another content hash (a divergent register or
+            // transaction set) must still be fetched, so that the copies get merged.
+            let same_version_stored = locally_stored_keys
+                .get(&key)
+                .is_some_and(|(_addr, local_type)| *local_type == record_type);
+            if same_version_stored
                 || self
                     .to_be_fetched
                     .contains_key(&(key.clone(), record_type.clone(), holder))
